@@ -34,6 +34,15 @@ class DC:
     c: Any = field(default_factory=list)
 
 
+@dataclass
+class DC2:
+    """same fields and defaults as DC, another class"""
+
+    a: Any
+    b: Any = 5
+    c: Any = field(default_factory=list)
+
+
 @dataclass(frozen=True)
 class FDC:
     x: Any
